@@ -67,6 +67,9 @@ class L1(BasePenalty):
 
     def alpha_max(self, gradient0):
         """Return penalization value for which 0 is solution."""
+        if self.positive:
+            # only coordinates that would move in the positive direction matter
+            return max(0., np.max(-gradient0))
         return np.max(np.abs(gradient0))
 
 
@@ -146,6 +149,8 @@ class L1_plus_L2(BasePenalty):
         if self.l1_ratio == 0.:
             # pure ridge: 0 is a solution only if the gradient vanishes
             return np.inf
+        if self.positive:
+            return max(0., np.max(-gradient0)) / self.l1_ratio
         return np.max(np.abs(gradient0)) / self.l1_ratio
 
 
@@ -215,6 +220,8 @@ class WeightedL1(BasePenalty):
     def alpha_max(self, gradient0):
         """Return penalization value for which 0 is solution."""
         nnz_weights = self.weights != 0
+        if self.positive:
+            return max(0., np.max(-gradient0[nnz_weights] / self.weights[nnz_weights]))
         return np.max(np.abs(gradient0[nnz_weights] / self.weights[nnz_weights]))
 
 
@@ -291,6 +298,8 @@ class MCPenalty(BasePenalty):
 
     def alpha_max(self, gradient0):
         """Return penalization value for which 0 is solution."""
+        if self.positive:
+            return max(0., np.max(-gradient0))
         return np.max(np.abs(gradient0))
 
 
@@ -376,6 +385,8 @@ class WeightedMCPenalty(BasePenalty):
     def alpha_max(self, gradient0):
         """Return penalization value for which 0 is solution."""
         nnz_weights = self.weights != 0
+        if self.positive:
+            return max(0., np.max(-gradient0[nnz_weights] / self.weights[nnz_weights]))
         return np.max(np.abs(gradient0[nnz_weights] / self.weights[nnz_weights]))
 
 
